@@ -86,6 +86,35 @@ def judge(case, obs, res):
     return "accepted"
 
 
+def judge_api(case, obs, res):
+    if "not_expressible" in obs:
+        res.classes["builders_cannot_express_document"] += 1
+        return
+    if "panic" in obs:
+        res.violate("builder-panic", f"building a value through the public builders panicked: {obs['panic']}", case, obs, None)
+        return
+    if "built" not in obs:
+        res.inconclusive.append(f"executor failure: {str(obs)[:200]}")
+        return
+    for w in WRITERS:
+        r = obs.get(w)
+        if r is None:
+            continue
+        if "panic" in r or "err" in r:
+            res.violate(f"builder-value-roundtrip-fails:{w}", f"{w}: serialise/parse of a builder-made value fails: {r}", case, obs, "equal value")
+        else:
+            if r["eq"] is not True:
+                res.violate(f"builder-value-roundtrip-differs:{w}", f"parse(serialise(v)) != v for a value made with the public builders ({w})", case, obs, "equal")
+            if r["same_bytes"] is not True:
+                res.violate(f"builder-value-reserialisation-differs:{w}", "second serialisation not byte-identical for a builder-made value", case, obs, None)
+    want = normalise(case["type"], case["doc"])
+    got, want = drop_recomputed_keyid(case["type"], obs["val"], want)
+    if json.dumps(got, sort_keys=True) != json.dumps(want, sort_keys=True):
+        d = first_diff(want, got)
+        res.violate(f"builder-value-serialises-differently:{d[0]}", f"a builder-made value serialises with {d[1]} = {json.dumps(d[3])[:120]} instead of {json.dumps(d[2])[:120]}", case, {"val": got}, want)
+    res.note(["api", case["text"]], True, cls=["roundtrip:builder_value", f"builder_value:{case['type']}"], n=4)
+
+
 def drop_recomputed_keyid(t, got, want):
     got, want = copy.deepcopy(got), copy.deepcopy(want)
 
@@ -141,6 +170,13 @@ def shard(binpath, seed, sh, n):
             if t in TYPES:
                 break
         cases.append({"op": "serde", "type": t, "text": json.dumps(d, ensure_ascii=False), "meta": {"valid": bool(i % 5)}})
+    # values obtained from the public builders (not from parsing): same writer round trips
+    api_cases = []
+    for c in cases:
+        if c["meta"]["valid"] and c["type"] in ("layout", "link", "wrapper") and len(api_cases) < n // 4:
+            api_cases.append({"op": "api_rt", "doc": json.loads(c["text"]), "type": c["type"], "text": c["text"], "meta": {"valid": True, "api": True}})
+    for c, o in zip(api_cases, common.run_batch(binpath, api_cases, keys=False)):
+        judge_api(c, o, res)
     obs = common.run_batch(binpath, cases, keys=False)
     for c, o in zip(cases, obs):
         r = judge(c, o, res)
@@ -180,6 +216,6 @@ def main(ctx):
         assumptions=["the normalisations in normalise() are the documented ones (forced top-level _type, null environment, "
                      "keyid / empty private member added to keys)"],
         required=["roundtrip:metablock", "roundtrip:layout", "roundtrip:link", "roundtrip:rule", "roundtrip:pubkey", "roundtrip:step",
-                  "roundtrip:inspection", "roundtrip:byproducts", "rule_form:MATCH", "environment:null_or_absent", "mutated:rejected",
+                  "roundtrip:inspection", "roundtrip:byproducts", "roundtrip:builder_value", "rule_form:MATCH", "environment:null_or_absent", "mutated:rejected",
                   "multi_algorithm_digests"],
         min_evals=5000)
